@@ -112,6 +112,32 @@ fn check_roundtrip(m: &Mat, p: &mut Probe) -> Check {
         let back = parsed.map_err(|e| Fail::new("own-text-rejected", format!("from_alist rejected a valid alist: {e}\n{own}")))?;
         ensure!(back.num_rows() == m.rows && back.num_cols() == m.cols && sparse_set(&back) == want, "own-text", "from_alist of a valid alist gives another matrix\n{own}");
     }
+    // the same object written again after an edit (a toggle at a derived position and the removal of
+    // one entry): the texts are those of the edited matrix
+    if m.rows > 0 && m.cols > 0 {
+        let mut h = h;
+        let mut want = want;
+        let pos = ((m.ones.len() * 7 + 1) % m.rows, (m.ones.len() * 3 + m.rows) % m.cols);
+        h.toggle(pos.0, pos.1);
+        if !want.remove(&pos) {
+            want.insert(pos);
+        }
+        if let Some(&e) = m.ones.first() {
+            h.remove(e.0, e.1);
+            want.remove(&e);
+        }
+        for padded in [true, false] {
+            let which = if padded { "alist()" } else { "alist_no_padding()" };
+            let text = guarded(|| if padded { h.alist() } else { h.alist_no_padding() }).map_err(|e| Fail::new("writer-panic", format!("{which} after an edit panicked: {e}")))?;
+            match strict_alist(&text, Some(padded)) {
+                Ok(back) => ensure!(back.rows == m.rows && back.cols == m.cols && back.set() == want, "format-matrix-after-edit", "{which} of an object that was written before and then edited (toggle {pos:?}, remove {:?}) does not describe the edited matrix:\n{text}", m.ones.first()),
+                Err(e) => return Err(Fail::new("format-after-edit", format!("{which} text after an edit is not a well-formed alist ({e}):\n{text}"))),
+            }
+            let back = guarded(|| SparseMatrix::from_alist(&text)).map_err(|e| Fail::new("parser-panic", format!("from_alist({which} after an edit) panicked: {e}")))?.map_err(|e| Fail::new("roundtrip-err", format!("from_alist rejected {which} output after an edit: {e}\n{text}")))?;
+            ensure!(sparse_set(&back) == want, "roundtrip-set-after-edit", "{which} round trip after an edit changed the set of ones\n{text}");
+        }
+        p.class("written-edited-written-again");
+    }
     Ok(())
 }
 
@@ -465,7 +491,7 @@ pub fn property() -> Property {
             }),
             Box::new(Sub {
                 name: "roundtrip",
-                rule: "matrices 1..=12 x 1..=12 in seven density classes (all-zero, single entry, sparse, about half, full, forced empty row+column, uniform), ones inserted in shuffled order; oracle: alist()/alist_no_padding()/write_* -> own strict reader (header, true maxima, weight lines, strictly increasing 1-based lists, padding exactly to the maximum) and -> from_alist gives same dimensions and set; own writer's padded and unpadded texts parse to the matrix; non-trivial = an empty row/column or irregular weights",
+                rule: "(afterwards the written object is edited - one toggle, one removal - and written again: the texts must be those of the edited matrix) matrices 1..=12 x 1..=12 in seven density classes (all-zero, single entry, sparse, about half, full, forced empty row+column, uniform), ones inserted in shuffled order; oracle: alist()/alist_no_padding()/write_* -> own strict reader (header, true maxima, weight lines, strictly increasing 1-based lists, padding exactly to the maximum) and -> from_alist gives same dimensions and set; own writer's padded and unpadded texts parse to the matrix; non-trivial = an empty row/column or irregular weights",
                 cases: |t| t.pick(500_000, 10_000_000),
                 strategy: |t| matrix_strategy(t.pick(12, 24)),
                 check: check_roundtrip,
